@@ -1,5 +1,5 @@
 (* Props_C12.v — C12: a probe succeeds only on genuine evidence; indirect probing is routed correctly. *)
-From Foca Require Import Laws MembersM ProbeM FocaM WireM L_Members L_MembersInv Inv L_Wire L_Probe L_RoundEnd L_IndirectStage L_RoundSuspect L_Evidence L_Abort Concrete.
+From Foca Require Import Laws MembersM ProbeM FocaM WireM L_Members L_MembersInv Inv L_Wire L_Probe L_RoundEnd L_IndirectStage L_RoundSuspect L_Evidence L_Abort L_SendFrame Concrete.
 From Coq Require Import Permutation.
 
 Section C12.
@@ -258,6 +258,18 @@ Proof.
   exact (history_keeps_evidence rnd l f NL E).
 Qed.
 
+(* the round's bookkeeping is untouched by what merely sends *)
+Theorem C12_pure_sends_keep_the_round (rnd : oracle) (f : @foca Id Addr HO) (i : @input Id) :
+  match i with
+  | IGossip | IAnnounce _ | IBroadcast => True
+  | ITimer (TPeriodicAnnounce _) | ITimer (TPeriodicAnnounceDown _) | ITimer (TPeriodicGossip _) => True
+  | _ => False
+  end ->
+  prb (fst (fst (fst (step rnd f i)))) = prb f.
+Proof.
+  intros S. destruct (sending_changes_only_backlogs rnd f i S) as (u & c & E). rewrite E. reflexivity.
+Qed.
+
 End C12.
 
 (* non-vacuity: a connected instance with an open round (a member is being probed, no evidence yet); an identity
@@ -306,3 +318,4 @@ Print Assumptions C12_no_abort_meaning.
 Print Assumptions C12_identity_change_abandons_round.
 Print Assumptions C12_first_round_after_an_abort_is_quiet.
 Print Assumptions C12_abort_example.
+Print Assumptions C12_pure_sends_keep_the_round.
